@@ -310,12 +310,12 @@ func genC12(g *mon.G) {
 
 func init() {
 	Register(&mon.Check{
-		ID:    "C12",
-		Level: "exploration",
-		Rule: "interrupt cases: for a put list of n blocks (n ≤ 3 quick / ≤ 5 thorough) ALL 3^(n+1) strings over {continue, Discard+reopen, Finalize+reopen} at the n+1 operation boundaries (random strings for n = 6..15), x 6 (quick) / 10 (thorough) option configurations x {blockstore.OpenReadWrite on a file, storage.OpenReadableWritable on a memfile}; final bytes must equal the uninterrupted session's. mismatch cases: every single-field mismatch (root replaced/removed/added, data padding larger/smaller, wrong version) on a finalized and on an unfinalized file must be rejected with the file byte-identical afterwards",
+		ID:          "C12",
+		Level:       "exploration",
+		Rule:        "interrupt cases: for a put list of n blocks (n ≤ 3 quick / ≤ 5 thorough) ALL 3^(n+1) strings over {continue, Discard+reopen, Finalize+reopen} at the n+1 operation boundaries (random strings for n = 6..15), x 6 (quick) / 10 (thorough) option configurations x {blockstore.OpenReadWrite on a file, storage.OpenReadableWritable on a memfile}; final bytes must equal the uninterrupted session's. mismatch cases: every single-field mismatch (root replaced/removed/added, data padding larger/smaller, wrong version) on a finalized and on an unfinalized file must be rejected with the file byte-identical afterwards",
 		Assumptions: []string{"byte equality only; permuted roots are not a mismatch (documented)", "a storage CAR has no Discard: dropping the object models it"},
-		Gen:   genC12,
-		Run:   runC12,
-		MinCover: map[string]int{"interruption-strings": 1000, "interrupt:discard": 500, "interrupt:finalize": 500, "mismatch:root-replaced": 10, "mismatch:root-added": 10, "mismatch:data-padding-larger": 10, "mismatch:wrong-version": 10, "api:blockstore": 10, "api:storage": 10},
+		Gen:         genC12,
+		Run:         runC12,
+		MinCover:    map[string]int{"interruption-strings": 1000, "interrupt:discard": 500, "interrupt:finalize": 500, "mismatch:root-replaced": 10, "mismatch:root-added": 10, "mismatch:data-padding-larger": 10, "mismatch:wrong-version": 10, "api:blockstore": 10, "api:storage": 10},
 	})
 }
